@@ -318,6 +318,10 @@ func c12RoundTrip(w *mon.W, idx int) {
 		bm = append(bm, 0, 0) // trailing zero words
 		w.Bucket("roundtrip/trailing-zero-words")
 	}
+	if idx%10 == 3 {
+		bm = gen.RunBitmap(r, 40+idx%200) // runs of empty / full words: 8 full, 8 empty, 8 full on whatever grid
+		w.Bucket("roundtrip/run-structured")
+	}
 	if idx%25 == 7 {
 		// exactly 255, 256, 257, 511, 512 ones (the sizes at which a scratch buffer of a power-of-two capacity is just
 		// not, exactly, and just outgrown): full words plus a partial one
